@@ -51,6 +51,7 @@ def parseMut (root : Str) (t : Str) : Option Mut :=
     else if k = "xi".toList then (parseNat? a).map .exit
     else if k = "rt".toList then (parseNat? a).map .return_
     else if k = "ec".toList then some (.echo a)
+    else if k = "xc".toList then some (.execCmd a)
     else none
   | [k] =>
     if k = "sf".toList then some .shift
